@@ -27,3 +27,4 @@ open GqlVerif.C13
 #print axioms rustOf_distinct
 #print axioms rustOf_not_inj_without_wf
 #print axioms rustOf_not_inj_without_plainBase
+#print axioms decorateType_shape_inj
